@@ -16,11 +16,13 @@ def run(ctx):
     lat = {"module": "GenLatency.tla", "cfg": "GenLatency.cfg", "name": "latency"}
     # single-request deep paths: retransmissions, late answers to earlier transmissions, further deadlines
     deep = {"module": "Gen_C01.tla", "cfg": "Gen_C01_deep.cfg", "name": "deep"}
+    # several datagrams read by one processing call
+    batch = {"module": "GenBatch.tla", "cfg": "GenBatch.cfg", "name": "batch"}
     if ctx.quick:
-        gens = [{"module": "Gen_C06.tla", "cfg": "Gen_C06_quick.cfg", "name": "bfs"}, lat, deep]
+        gens = [{"module": "Gen_C06.tla", "cfg": "Gen_C06_quick.cfg", "name": "bfs"}, lat, deep, batch]
     else:
         gens = [{"module": "Gen_C06.tla", "cfg": "Gen_C06_thorough.cfg", "name": "bfs"},
-                {"module": "Gen_C06.tla", "cfg": "Gen_C06_sim.cfg", "name": "sim", "simulate": 2000, "depth": 14}, lat, deep]
+                {"module": "Gen_C06.tla", "cfg": "Gen_C06_sim.cfg", "name": "sim", "simulate": 2000, "depth": 14}, lat, deep, batch]
     simlib.engine_check(ctx, gens, FACETS, labels=LABELS, selftests=mutators.RETRY)
     extra(ctx)
 
